@@ -59,6 +59,16 @@ def observe(n, params, kind='iter'):
                 except StopIteration:
                     return
         seq = g()
+    elif kind == 'iterable':
+        # a lazily produced sequence that is iterable but not itself an iterator
+        class ResultSet:
+            def __iter__(self):
+                while True:
+                    try:
+                        yield next(c)
+                    except StopIteration:
+                        return
+        seq = ResultSet()
     else:
         from DocumentTemplate.DT_Util import SequenceFromIter
         seq = SequenceFromIter(c)
@@ -130,9 +140,9 @@ def run(res, tier, have_driver):
             n = None
         elif r.random() < 0.1:
             n = 40
-        cases.append((n, p, r.choice(['iter', 'gen', 'sfi']), True))
+        cases.append((n, p, r.choice(['iter', 'gen', 'sfi', 'iterable']), True))
     for n in list(range(0, 15)) + [40, 333]:
-        for kind in ('iter', 'gen', 'sfi'):
+        for kind in ('iter', 'gen', 'sfi', 'iterable'):
             cases.append((n, {}, kind, False))
     reqs, obss = [], []
     for (n, p, kind, batched) in cases:
